@@ -3,7 +3,7 @@
 
 *)
 From Coq Require Import ZArith NArith List Bool Arith.
-From NSG Require Import Base.Prelude Model.Defender Model.Coord Proofs.CoordBase Proofs.CoordInv Proofs.CoordInvConn Proofs.CoordInvDispatch Proofs.CoordInvHandler Proofs.CoordProps Proofs.CoordDirect Proofs.CoordInv2 Proofs.CoordAgentStep Proofs.CoordBarrier Proofs.CoordMeasure Proofs.CoordIsolation.
+From NSG Require Import Base.Prelude Model.Defender Model.Coord Proofs.CoordBase Proofs.CoordInv Proofs.CoordInvConn Proofs.CoordInvDispatch Proofs.CoordInvHandler Proofs.CoordProps Proofs.CoordDirect Proofs.CoordInv2 Proofs.CoordAgentStep Proofs.CoordBarrier Proofs.CoordMeasure Proofs.CoordIsolation Proofs.CoordLimit.
 Import ListNotations.
 
 (* the reason: goal reached => Success; else detected => Fail; else step limit reached => TimeoutReached; else unchanged *)
@@ -117,6 +117,33 @@ Theorem C04_stays_ended :
        @gone_along V W G wstep wreset winit goal detect cfg s ls c.
 Proof. exact (@ended_stays_reachable). Qed.
 
+(* the step limit, in EVERY reachable state: an agent whose role has a limit m > 0 has taken at most m steps in its episode, and one that has taken m has ended (the m-th action ends the episode at the latest, whatever the interleaving) *)
+Theorem C04_limit :
+  forall (V W G : Type) (wstep : W -> V -> G -> W * V) (wreset : W -> W) (winit : W -> role -> W * V)
+         (goal : role -> V -> bool) (detect : list G -> G -> bool) (cfg : config) 
+         (w : W) (ls : list (@label G)) (s : @state V W G) (c : addr) (a : @agent V G) 
+         (m : nat),
+       @execs V W G wstep wreset winit goal detect cfg (@init_state V W G w) ls = @Some (@state V W G) s ->
+       @alookup (@agent V G) c (@agents V W G s) = @Some (@agent V G) a ->
+       max_steps cfg (@a_role V G a) = @Some nat m ->
+       0 < m -> @a_steps V G a <= m /\ (@a_steps V G a = m -> @a_ended V G a = true).
+Proof. exact (@step_limit_reachable). Qed.
+
+(* where the records of the next state come from: from the record of the same address by one of the listed changes, or - for an address that had none - as the fresh record of a successful join *)
+Theorem C04_origin :
+  forall (V W G : Type) (wstep : W -> V -> G -> W * V) (wreset : W -> W) (winit : W -> role -> W * V)
+         (goal : role -> V -> bool) (detect : list G -> G -> bool) (cfg : config) 
+         (s s' : @state V W G) (l : @label G) (c : addr) (a' : @agent V G),
+       @Inv2 V W G s ->
+       @exec V W G wstep wreset winit goal detect cfg s l = @Some (@state V W G) s' ->
+       @alookup (@agent V G) c (@agents V W G s') = @Some (@agent V G) a' ->
+       (exists a : @agent V G,
+          @alookup (@agent V G) c (@agents V W G s) = @Some (@agent V G) a /\
+          @achange V G goal detect cfg a l a') \/
+       @alookup (@agent V G) c (@agents V W G s) = @None (@agent V G) /\
+       (exists (name : N) (r : role) (v : V), a' = @new_agent V G name r v).
+Proof. exact (@agent_origin). Qed.
+
 (* what one label can do to one agent's record, from every reachable state: the complete case list `achange` (Proofs/CoordAgentStep.v): nothing; request flag set; own action (only when not ended); answer recorded; trajectory restarted; reward task; reset task (only when it had asked) *)
 Theorem C04_one_label :
   forall (V W G : Type) (wstep : W -> V -> G -> W * V) (wreset : W -> W) (winit : W -> role -> W * V)
@@ -126,7 +153,7 @@ Theorem C04_one_label :
        @execs V W G wstep wreset winit goal detect cfg (@init_state V W G w) ls0 = @Some (@state V W G) s ->
        @exec V W G wstep wreset winit goal detect cfg s l = @Some (@state V W G) s' ->
        @alookup (@agent V G) c (@agents V W G s) = @Some (@agent V G) a ->
-       @stepped V G cfg (@agents V W G s') c a l.
+       @stepped V G goal detect cfg (@agents V W G s') c a l.
 Proof. exact (@agent_step_reachable). Qed.
 
 
@@ -180,4 +207,6 @@ Print Assumptions C04_absorbing.
 Print Assumptions C04_absorbing_frame.
 Print Assumptions C04_defender_reason.
 Print Assumptions C04_stays_ended.
+Print Assumptions C04_limit.
+Print Assumptions C04_origin.
 Print Assumptions C04_one_label.
